@@ -233,8 +233,8 @@ Definition ex_h : shs :=
 Definition ex_w0 : sworld := sinit exD [] (mkSio ex_input [] []) (mkSmu [] []) ex_h.
 (* a read event of +X is triggered, then cat_service is called 100 times *)
 Definition ex_ops : list op := [OTrigger 0 T_READ] ++ repeat OService 100.
-Definition ex_run (n : nat) : sworld := srunops exD ex_w0 (firstn n ex_ops).
-Definition ex_ss (n : nat) := sstarts exD ex_w0 (firstn n ex_ops).
+Local Notation ex_run n := (srunops exD ex_w0 (firstn n ex_ops)).
+Local Notation ex_ss n := (sstarts exD ex_w0 (firstn n ex_ops)).
 
 Example C01r_ex_lines : nonblank_lines false ex_input = 3.
 Proof. vm_compute. reflexivity. Qed.
@@ -334,6 +334,34 @@ Proof. split; reflexivity. Qed.
 Example C01r_ex_reading : reading_state (k_state (k (wst (ex_run 101)))) = true.
 Proof. vm_compute. reflexivity. Qed.
 
+(* (the theorems instantiated with this descriptor and these scripts, for an arbitrary list of
+   operations; the examples below apply them to prefixes of ex_ops) *)
+Lemma ex_stream_applies : forall ops, Forall (valid_op exD) ops ->
+  let w := srunops exD ex_w0 ops in let ss := sstarts exD ex_w0 ops in
+  reading_state (k_state (k (wst w))) = true ->
+  proj ATCMD (accepted_wr (TraceDefs.hist sio smu shs w)) =
+    concat (map (fun x => snd (unit_of x)) (cmd_sessions ss)) /\
+  rc_sessions ss = filter (fun x => cstate_beq (k_wafter (k (snd x))) CS_AFTER_RESET) (cmd_sessions ss) /\
+  Forall rc_unit (rc_sessions ss) /\
+  length (rc_sessions ss) = nonblank_lines false (consumed (wtr w)) /\
+  gR (wst w) = length (rc_sessions ss) /\ gS (wst w) = gR (wst w).
+Proof.
+  intros ops F.
+  exact (C01_lines_answered_in_stream_scripted exD [] (mkSio ex_input [] []) (mkSmu [] []) ex_h
+           ops ex_wf F (proj1 C01r_ex_hyps) (proj2 C01r_ex_hyps)).
+Qed.
+Lemma ex_units_applies : forall ops, Forall (valid_op exD) ops ->
+  let s := wst (srunops exD ex_w0 ops) in let rc := rc_sessions (sstarts exD ex_w0 ops) in
+  Forall rc_unit rc /\
+  (rc_pending s -> gS s = S (length rc) /\ gR s = length rc) /\
+  (rc_in_flight s -> gS s = length rc /\ S (gR s) = length rc) /\
+  (~ rc_pending s -> ~ rc_in_flight s -> gS s = length rc /\ gR s = length rc).
+Proof.
+  intros ops F.
+  exact (C01_result_codes_are_units_scripted exD [] (mkSio ex_input [] []) (mkSmu [] []) ex_h
+           ops ex_wf F (proj1 C01r_ex_hyps) (proj2 C01r_ex_hyps)).
+Qed.
+
 Example C01r_ex_apply_stream :
   let w := ex_run 101 in let ss := ex_ss 101 in
   proj ATCMD (accepted_wr (TraceDefs.hist sio smu shs w)) =
@@ -342,11 +370,7 @@ Example C01r_ex_apply_stream :
   Forall rc_unit (rc_sessions ss) /\
   length (rc_sessions ss) = nonblank_lines false (consumed (wtr w)) /\
   gR (wst w) = length (rc_sessions ss) /\ gS (wst w) = gR (wst w).
-Proof.
-  exact (C01_lines_answered_in_stream_scripted exD [] (mkSio ex_input [] []) (mkSmu [] []) ex_h
-           (firstn 101 ex_ops) ex_wf (ex_valid 101) (proj1 C01r_ex_hyps) (proj2 C01r_ex_hyps)
-           C01r_ex_reading).
-Qed.
+Proof. exact (ex_stream_applies (firstn 101 ex_ops) (ex_valid 101) C01r_ex_reading). Qed.
 
 (* ... and in the middle of it, for every prefix *)
 Example C01r_ex_apply_units : forall n,
@@ -355,11 +379,7 @@ Example C01r_ex_apply_units : forall n,
   (rc_pending s -> gS s = S (length rc) /\ gR s = length rc) /\
   (rc_in_flight s -> gS s = length rc /\ S (gR s) = length rc) /\
   (~ rc_pending s -> ~ rc_in_flight s -> gS s = length rc /\ gR s = length rc).
-Proof.
-  intros n.
-  exact (C01_result_codes_are_units_scripted exD [] (mkSio ex_input [] []) (mkSmu [] []) ex_h
-           (firstn n ex_ops) ex_wf (ex_valid n) (proj1 C01r_ex_hyps) (proj2 C01r_ex_hyps)).
-Qed.
+Proof. intros n. exact (ex_units_applies (firstn n ex_ops) (ex_valid n)). Qed.
 
 (* the universally quantified oracle hypotheses of the history theorems are satisfiable: a handler
    oracle that always gives the default answer; the stream theorem for all its histories on exD *)
